@@ -1,0 +1,34 @@
+//go:build verif
+// +build verif
+
+package interval
+
+import "math/big"
+
+// Exported wrappers around unexported functions, for the /verif correspondence
+// check. Compiled only with -tags verif.
+
+func VerifAndMax(x IntRange, y IntRange) *big.Int { return x.andMax(y) }
+func VerifOrMax(x IntRange, y IntRange) *big.Int  { return x.orMax(y) }
+func VerifBitFillRight(i *big.Int)                 { bitFillRight(i) }
+
+func VerifSplit2Ways(x IntRange) (IntRange, IntRange, bool, bool) { return x.split2Ways() }
+func VerifSplit3Ways(x IntRange) (IntRange, IntRange, bool, bool, bool) {
+	return x.split3Ways()
+}
+
+// VerifShared reports whether p is one of the package-level *big.Int values.
+func VerifShared(p *big.Int) bool {
+	if p == nil {
+		return false
+	}
+	if p == one || p == minusOne || p == sharedEmptyRange[0] || p == sharedEmptyRange[1] {
+		return true
+	}
+	for _, m := range smallBitMasks {
+		if p == m {
+			return true
+		}
+	}
+	return false
+}
